@@ -40,6 +40,8 @@ class Module:
             self.tree = ast.parse(source, filename=relpath)
         except SyntaxError as e:  # a unit that does not parse is never skipped silently
             raise AnalysisError(f"cannot parse {relpath}: {e}")
+        from .normalise import normalise
+        self.tree = normalise(self.tree)
         set_parents(self.tree)
         self.imports: Dict[str, Tuple[str, Optional[str]]] = {}
         for n in ast.walk(self.tree):
